@@ -280,3 +280,8 @@ def check_observations(rec, m, ops):
         done.add(root)
         fam_all = sorted([root] + m.extensions_of(root), key=lambda s: m.lex[s].order)
         compare(rec, m, fam_all, label=f'C05 history {ops}', quirks=QUIRKS)
+    # the unrestricted default mode as well (every entity navigates inside its own extension family, whatever was
+    # installed or removed since the last look)
+    if m.lex and len(ops) % 3 == 0:
+        rec.event('default-mode.compared')
+        compare(rec, m, None, default=True, label=f'C05 default mode after history {ops}', quirks=QUIRKS)
